@@ -21,7 +21,9 @@ class G:
 
     def visible(self, pred):
         out = {}
-        for s in self.scopes:
+        for s, mb in zip(self.scopes, self.maybe):
+            for n in mb:
+                out.pop(n, None)   # possibly shadowed from here on by a declaration on a path that may not have run
             for n, srt in s.items():
                 out[n] = srt
         return sorted(n for n, srt in out.items() if pred(srt))
@@ -49,8 +51,15 @@ class G:
     def declare(self, name, sort):
         self.scopes[-1][name] = sort
 
-    def fresh_here(self, draw):
+    def fresh_here(self, draw, sort=None):
         free = [n for n in NAMES if n not in self.scopes[-1] and n not in self.maybe[-1]]
+        if sort is not None:
+            # a closure created earlier in this scope that mentions an outer variable resolves the name at call time, so a
+            # later declaration here re-targets it: keep the sort unchanged when shadowing
+            outer = {}
+            for sc in self.scopes[:-1]:
+                outer.update(sc)
+            free = [n for n in free if n not in outer or outer[n] == sort]
         if not free:
             return None
         return draw(st.sampled_from(free))
@@ -175,8 +184,9 @@ def gen_int(draw, g, d):
     if k == "switch":
         scrut = gen_int(draw, g, d - 1)
         arms = []
-        if draw(st.integers(0, 3)) == 0:
-            scrut = ["list", [scrut]] if draw(st.booleans()) else scrut
+        wrapped = draw(st.integers(0, 7)) == 0
+        if wrapped:
+            scrut = ["list", [scrut]]      # lets a `case [y] ->` arm match; the catch-all arm then binds nothing
         for _ in range(draw(st.integers(0, 2))):
             g.push()
             if draw(st.integers(0, 2)) == 0:
@@ -189,7 +199,7 @@ def gen_int(draw, g, d):
                 arms.append([["plit", draw(st.integers(0, 4))], gen_int(draw, g, d - 1)])
             g.pop()
         x = draw(st.sampled_from(NAMES))
-        last = draw(st.sampled_from(["pname", "pany", "pname"]))
+        last = "pany" if wrapped else draw(st.sampled_from(["pname", "pany", "pname"]))
         g.push()
         if last == "pname":
             g.declare(x, "int")
@@ -383,14 +393,14 @@ def gen_stmt(draw, g, d):
         opts = [o for o in opts if o != "eval"]
     k = draw(st.sampled_from(opts))
     if k == "decl_int":
-        x = g.fresh_here(draw)
+        x = g.fresh_here(draw, "int")
         if x is None:
             return None
         e = gen_int(draw, g, d)
         g.declare(x, "int")
         return ["decl", x, e]
     if k == "decl_list":
-        x = g.fresh_here(draw)
+        x = g.fresh_here(draw, "list")
         if x is None:
             return None
         e = gen_list(draw, g, d)
@@ -423,7 +433,7 @@ def gen_stmt(draw, g, d):
         g.noscope -= 1
         return ["if", c, t, e]
     if k == "while":
-        w = g.fresh_here(draw)
+        w = g.fresh_here(draw, "int")
         if w is None:
             return None
         g.declare(w, "int")
@@ -440,7 +450,7 @@ def gen_stmt(draw, g, d):
             return ["print", [gen_for(draw, g, d, "yield")]]
         return gen_for(draw, g, d, "do")
     if k == "deffn":
-        f = g.fresh_here(draw)
+        f = g.fresh_here(draw, "__unshadowing__")
         if f is None:
             return None
         lam, srt = gen_lambda(draw, g, d - 1, "int")
@@ -448,12 +458,12 @@ def gen_stmt(draw, g, d):
         return ["decl", f, lam]
     if k == "mkclosure":
         # a function that returns a closure over its parameter; the closure escapes and is called later
-        f, h = g.fresh_here(draw), None
+        f, h = g.fresh_here(draw, "__unshadowing__"), None
         if f is None:
             return None
         lam, srt = gen_lambda(draw, g, d - 1, "fn")
         g.declare(f, ("maker",))
-        h = g.fresh_here(draw)
+        h = g.fresh_here(draw, "__unshadowing__")
         if h is None:
             return ["decl", f, lam]
         inner = srt[2]
@@ -461,7 +471,7 @@ def gen_stmt(draw, g, d):
         return ["seq", [["decl", f, lam], ["decl", h, ["call", ["var", f], gen_args(draw, g, srt, 0)]]], True]
     if k == "closures":
         # one closure per loop iteration, called after the loop
-        fs, x, r = g.fresh_here(draw), None, None
+        fs, x, r = g.fresh_here(draw, "__unshadowing__"), None, None
         if fs is None:
             return None
         g.declare(fs, "fnlist")
